@@ -56,6 +56,37 @@ def find_path(root, target):
     return None
 
 
+def _wild():
+    return {"k": "PWild", "line": 0}
+
+
+def _simple_payload(p):
+    while p["k"] in ("PRef", "PType"):
+        p = p["pat"]
+    return p["k"] == "PWild" or (p["k"] == "PIdent" and p.get("sub") is None and p["name"][:1].islower())
+
+
+def IFLET(pat, expr, pol):
+    """iflet fact in canonical form: a *failed* match of `Some(x)` / `Ok(x)` / `Err(x)` / `None` is stated as the
+    successful match of the complementary constructor (`None`, `Err(_)`, `Ok(_)`, `Some(_)`), so that `if let .. else`,
+    a two-arm `match`, `let .. else` and an early `continue` all give the same fact."""
+    if not pol and is_node(pat):
+        p = pat
+        while p["k"] in ("PRef", "PType", "PParen") and "pat" in p:
+            p = p["pat"]
+        name = None
+        if p["k"] == "PTupleStruct" and len(p["elems"]) == 1 and _simple_payload(p["elems"][0]):
+            name = p["path"].split("::")[-1]
+        elif p["k"] in ("PIdent", "PPath") and (p.get("name") or p.get("path", "")).split("::")[-1] == "None":
+            name = "None"
+        comp = {"Some": "None", "None": "Some", "Ok": "Err", "Err": "Ok"}.get(name)
+        if comp == "None":
+            return ("iflet", {"k": "PIdent", "line": 0, "name": "None", "by_ref": False, "mut": False, "sub": None}, expr, True)
+        if comp in ("Some", "Ok", "Err"):
+            return ("iflet", {"k": "PTupleStruct", "line": 0, "path": comp, "elems": [_wild()]}, expr, True)
+    return ("iflet", pat, expr, pol)
+
+
 def split_cond(e, pol):
     """Boolean expression with polarity -> list of atomic facts (conjunction) or a
     single notall."""
@@ -74,14 +105,14 @@ def split_cond(e, pol):
         # a || b  ==  not(!a && !b)
         return [("notall", split_cond(e["l"], False) + split_cond(e["r"], False))]
     if k == "Let":
-        return [("iflet", e["pat"], e["e"], pol)]
+        return [IFLET(e["pat"], e["e"], pol)]
     if k == "Macro" and e["name"].endswith("matches") and e.get("parsed") and e.get("pat") is not None:
-        facts_ = [("iflet", e["pat"], e["args"][0], pol)]
+        facts_ = [IFLET(e["pat"], e["args"][0], pol)]
         if e.get("guard"):
             if pol:
                 facts_ += split_cond(e["guard"], True)
             else:
-                return [("notall", [("iflet", e["pat"], e["args"][0], True)] + split_cond(e["guard"], True))]
+                return [("notall", [IFLET(e["pat"], e["args"][0], True)] + split_cond(e["guard"], True))]
         return facts_
     if k == "Paren":
         return split_cond(e["e"], pol)
@@ -110,7 +141,7 @@ def negate(facts_):
         if f[0] == "if":
             return [("if", f[1], not f[2])]
         if f[0] == "iflet":
-            return [("iflet", f[1], f[2], not f[3])]
+            return [IFLET(f[1], f[2], not f[3])]
         if f[0] == "notall":
             return list(f[1])
     return [("notall", list(facts_))]
@@ -128,6 +159,16 @@ def _catch_all(pat, other):
     return False
 
 
+def _ctor(p):
+    while p["k"] in ("PRef", "PType", "PParen") and "pat" in p:
+        p = p["pat"]
+    if p["k"] == "PTupleStruct":
+        return p["path"].split("::")[-1]
+    if p["k"] in ("PIdent", "PPath"):
+        return (p.get("name") or p.get("path", "")).split("::")[-1]
+    return None
+
+
 def arm_fact(m, arm):
     """Fact for being inside `arm` of match `m`.  A two-arm match without guards whose other arm is a catch-all is the
     same thing as `if let` / `else`: it yields the same fact, so rules do not see the difference."""
@@ -138,9 +179,13 @@ def arm_fact(m, arm):
         if render(strip_pat(me["pat"])) in ("true", "false") and render(strip_pat(other["pat"])) in ("true", "false", "_"):
             return split_cond(m["scrut"], render(strip_pat(me["pat"])) == "true")
         if _catch_all(other["pat"], me["pat"]) and not _catch_all(me["pat"], other["pat"]):
-            return [("iflet", me["pat"], m["scrut"], True)]
+            return [IFLET(me["pat"], m["scrut"], True)]
         if _catch_all(me["pat"], other["pat"]) and not _catch_all(other["pat"], me["pat"]):
-            return [("iflet", other["pat"], m["scrut"], False)]
+            return [IFLET(other["pat"], m["scrut"], False)]
+        cm, co = _ctor(me["pat"]), _ctor(other["pat"])
+        if {cm, co} in ({"Ok", "Err"}, {"Some", "None"}):
+            # complementary constructors: being in this arm is the successful match of its own pattern
+            return [IFLET(me["pat"], m["scrut"], True)]
     return [("arm", m["scrut"], arm["pat"], arm["guard"])]
 
 
@@ -207,7 +252,7 @@ def exits(stmt, kinds=("return", "continue", "break", "panic")):
             if n["init"]:
                 rec(n["init"], conds, loop_depth)
             if n["else"]:
-                rec(n["else"], conds + [("iflet", n["pat"], n["init"], False)], loop_depth)
+                rec(n["else"], conds + [IFLET(n["pat"], n["init"], False)], loop_depth)
             return
         for _slot, c in _child_slots(n):
             rec(c, conds, loop_depth)
@@ -220,7 +265,7 @@ def after_stmt(stmt, kinds=("return", "continue", "break", "panic")):
     """Facts known after a statement completed normally (its exits were not taken)."""
     out = []
     if stmt["k"] == "Local" and stmt.get("else") is not None:
-        out.append(("iflet", stmt["pat"], stmt["init"], True))
+        out.append(IFLET(stmt["pat"], stmt["init"], True))
     seen = {fact_str(f) for f in out}
     for _kind, _node, conds in exits(stmt, kinds):
         if conds:
@@ -255,6 +300,8 @@ def conditions_to(root, target, kinds=("return", "continue", "break", "panic")):
                 conds += arm_fact(parent, child)
         elif k == "Arm":
             pass
+        elif k == "Local" and slot == "else":
+            conds.append(IFLET(parent["pat"], parent["init"], False))
         elif k == "For" and slot == "body":
             conds.append(("loop", "for", parent["pat"], parent["iter"]))
         elif k == "While" and slot == "body":
@@ -271,29 +318,155 @@ def conditions_to(root, target, kinds=("return", "continue", "break", "panic")):
     return resolve_named(conds, path)
 
 
+PURE_KINDS = ("Path", "Field", "MethodCall", "Call", "Macro", "Binary", "Unary", "Index", "Ref", "Lit", "Paren", "Cast", "Tuple", "Range")
+
+
+def _pure(e):
+    for n in walk(e):
+        if n["k"] not in PURE_KINDS and n["k"] not in ("PIdent", "PWild", "PTupleStruct", "PStruct", "PPath", "PLit", "PRef", "PTuple", "POr"):
+            return False
+    return True
+
+
+def _subst(e, env, depth=0):
+    """replace free single-segment paths by their let definitions (deep copy); closures shadow their parameters"""
+    if isinstance(e, list):
+        return [_subst(x, env, depth) for x in e]
+    if not isinstance(e, dict):
+        return e
+    if e.get("k") == "Path" and e["path"] in env and depth < 6:
+        from astlib import strip as _strip
+
+        return _subst(_strip(env[e["path"]]), {k: v for k, v in env.items() if k != e["path"]}, depth + 1)
+    if e.get("k") == "Closure":
+        bound = {x["name"] for p in e.get("inputs", []) for x in walk(p) if x["k"] == "PIdent"}
+        env = {k: v for k, v in env.items() if k not in bound}
+    if e.get("k") == "Struct":
+        n = dict(e)
+        n["fields"] = []
+        for f in e["fields"]:
+            f2 = dict(f)
+            f2["e"] = _subst(f["e"], env, depth)
+            if f.get("shorthand") and f["name"] in env:
+                f2["shorthand"] = False
+            n["fields"].append(f2)
+        return n
+    return {k: _subst(v, env, depth) for k, v in e.items()}
+
+
+MUTATING = {"push", "push_back", "push_front", "insert", "remove", "clear", "extend", "append", "pop", "retain", "drain", "take", "swap", "truncate", "sort", "sort_unstable", "sort_by", "sort_by_key", "dedup", "entry", "replace", "clone_from", "reverse", "split_off", "resize", "fill", "set", "add", "update"}
+
+
+def _root(e):
+    while isinstance(e, dict) and e.get("k") in ("Field", "Index", "MethodCall", "Ref", "Unary", "Paren", "Try"):
+        e = e.get("base") or e.get("recv") or e.get("e")
+    return e["path"].split("::")[0] if isinstance(e, dict) and e.get("k") == "Path" else None
+
+
+def _mutated_names(stmt):
+    """names whose value may change when the statement runs: assignment targets, `&mut x`, receivers of mutating
+    methods (known names, `*_mut`, `set_*`, `add_*`, `insert_*`, `remove_*`, `update_*`)"""
+    out = set()
+    for n in walk(stmt):
+        k = n["k"]
+        if k in ("Assign", "AssignOp"):
+            r = _root(n["l"])
+            if r:
+                out.add(r)
+        elif k == "Binary" and n.get("op", "").endswith("=") and n["op"] not in ("==", "!=", "<=", ">="):
+            r = _root(n["l"])
+            if r:
+                out.add(r)
+        elif k == "Ref" and n.get("mut"):
+            r = _root(n["e"])
+            if r:
+                out.add(r)
+        elif k == "MethodCall":
+            m = n["method"]
+            if m in MUTATING or m.endswith("_mut") or m.split("_")[0] in ("set", "add", "insert", "remove", "update", "push", "pop", "append", "cache", "propagate"):
+                r = _root(n["recv"])
+                if r:
+                    out.add(r)
+    return out
+
+
 def resolve_named(conds, path):
-    """`let flag = <condition>; .. if flag {..}`: the fact is the condition, not the name.  Only immutable simple
-    lets on the way to the target are resolved (a `let mut` flag changes its value)."""
+    """Facts are stated over the definitions of immutable simple lets, not over their names:
+    `let t = m.type_knowledge(); if t.is_local()` gives the fact `m.type_knowledge().is_local()`, and
+    `let flag = <condition>; if flag` gives the condition itself.  Only `let x = <pure expression>` (no `mut`, no
+    control flow in the initialiser) on the way to the target is resolved; a later shadowing binding of the same
+    name (pattern, loop variable) ends the substitution."""
     env = {}
+    env_free = {}
+    out = []
+    ci = 0
+    # walk the path again, extending the environment in source order, and rewrite each fact with the environment
+    # that was current where the fact arose: facts were appended in path order, so process them lazily at the end
     for parent, _slot, child in path:
         if parent["k"] == "Block":
             for s in parent["stmts"]:
                 if s is child:
                     break
-                if s["k"] == "Local" and s["pat"]["k"] == "PIdent" and s["init"] is not None and not s["pat"].get("mut") and s.get("else") is None:
-                    env[s["pat"]["name"]] = s["init"]
+                # a statement that may change something a recorded definition mentions invalidates that definition
+                for nm in _mutated_names(s):
+                    for k_ in [k_ for k_, fv in list(env_free.items()) if nm in fv]:
+                        env.pop(k_, None)
+                        env_free.pop(k_, None)
+                if s["k"] == "Local":
+                    bound = {x["name"] for x in walk(s["pat"]) if x["k"] == "PIdent"}
+                    for b_ in bound:
+                        env.pop(b_, None)
+                        env_free.pop(b_, None)
+                    if s["pat"]["k"] == "PIdent" and s["init"] is not None and not s["pat"].get("mut") and s.get("else") is None and _pure(s["init"]):
+                        env[s["pat"]["name"]] = _subst(s["init"], env)
+                        env_free[s["pat"]["name"]] = {x["path"].split("::")[0] for x in walk(env[s["pat"]["name"]]) if x["k"] == "Path"}
+            # the statement on the path itself (loop / if / match containing the target) may mutate too: its effects
+            # before the target are not ordered here, so be conservative
+            for nm in _mutated_names(child) if isinstance(child, dict) and child.get("k") in ("For", "While", "Loop") else ():
+                for k_ in [k_ for k_, fv in list(env_free.items()) if nm in fv]:
+                    env.pop(k_, None)
+                    env_free.pop(k_, None)
+        elif parent["k"] in ("For", "Closure", "Arm", "Match", "If", "While"):
+            # names bound by patterns on the way shadow earlier lets
+            pats = []
+            if parent["k"] == "For":
+                pats = [parent["pat"]]
+            elif parent["k"] == "Closure":
+                pats = parent.get("inputs", [])
+            elif parent["k"] == "Arm":
+                pats = [parent["pat"]]
+            elif parent["k"] == "Match" and isinstance(child, dict) and "pat" in child:
+                pats = [child["pat"]]
+            elif parent["k"] in ("If", "While"):
+                pats = [l["pat"] for l in walk(parent["cond"]) if l["k"] == "Let"]
+            for p_ in pats:
+                for x in walk(p_):
+                    if x["k"] == "PIdent":
+                        env.pop(x["name"], None)
     if not env:
         return conds
-    out = []
-    for f in conds:
+
+    def rw(f):
         if f[0] == "if":
-            e = f[1]
-            while e.get("k") == "Paren":
-                e = e["e"]
-            if e.get("k") == "Path" and e["path"] in env and env[e["path"]].get("k") in ("MethodCall", "Macro", "Binary", "Unary", "Call"):
-                out += split_cond(env[e["path"]], f[2])
-                continue
-        out.append(f)
+            e = _subst(f[1], env)
+            if e is not f[1] and e.get("k") != f[1].get("k"):
+                return split_cond(e, f[2])
+            return [("if", e, f[2])]
+        if f[0] == "iflet":
+            return [("iflet", f[1], _subst(f[2], env), f[3])]
+        if f[0] == "arm":
+            return [("arm", _subst(f[1], env), f[2], f[3])]
+        if f[0] == "notall":
+            inner = []
+            for g in f[1]:
+                inner += rw(g)
+            return [("notall", inner)]
+        if f[0] == "loop" and f[3] is not None:
+            return [("loop", f[1], f[2], _subst(f[3], env))]
+        return [f]
+
+    for f in conds:
+        out += rw(f)
     return out
 
 
@@ -407,13 +580,17 @@ def enumerate_paths(node, limit=4000):
         if k == "Local":
             r = []
             inits = one(n["init"], conds, atoms) if n["init"] is not None else [(conds, atoms, None)]
+            if n["init"] is not None and n["init"]["k"] in ("Match", "If", "Block"):
+                # the branches of the initialiser were enumerated: the atom for the `let` itself must not contain them again
+                n = dict(n)
+                n["init"] = {"k": "Path", "line": n.get("line", 0), "path": "<branch-value>"}
             for c2, a2, ex in inits:
                 if ex is not None:
                     r.append((c2, a2, ex))
                     continue
                 if n["else"] is not None:
-                    r += one(n["else"], c2 + [("iflet", n["pat"], n["init"], False)], a2)
-                    r.append((c2 + [("iflet", n["pat"], n["init"], True)], a2 + [n], None))
+                    r += one(n["else"], c2 + [IFLET(n["pat"], n["init"], False)], a2)
+                    r.append((c2 + [IFLET(n["pat"], n["init"], True)], a2 + [n], None))
                 else:
                     r.append((c2, a2 + [n], None))
             return r
